@@ -1366,6 +1366,18 @@ def model_value(m, v):
         return True
     if z3.is_false(x):
         return False
+    if z3.is_fp_value(x):
+        if x.isNaN():
+            return "nan"
+        if x.isInf():
+            return "-inf" if x.isNegative() else "inf"
+        try:
+            v = float(eval(str(x).replace("+oo", "float('inf')"), {"__builtins__": {}}, {"float": float}))  # noqa: S307
+        except Exception:  # noqa: BLE001
+            v = float(x.as_decimal(40).rstrip("?")) if hasattr(x, "as_decimal") else 0.0
+        if x.isNegative() and v == 0:
+            v = -0.0
+        return repr(v)
     return str(x)
 
 
